@@ -421,9 +421,12 @@ theorem bmc_inSession (md5 : List Nat → List Nat) (hmd5 : ∀ x, (md5 x).lengt
 
 The theorems are about any peer `P` whose state projects (`π`) onto a state of the reference
 BMC / monitor, and that treats each datagram in one of two ways, decided by its own state
-(`lostAt`): it hands it to the BMC and hands back the BMC's answer, or it loses it (the monitor
-has seen it, `stepLost`; no answer).  The BMC itself is the instance `π = id`, `lostAt = false`;
-the BMC behind a lossy network (`Spec.BmcSession.lossy`) is another one. -/
+(`lostAt`): it hands it to the BMC and hands back the BMC's answer, or the BMC does not act on it
+(the monitor has seen it, `stepLost`).  In the second case `Relay` leaves open what comes back:
+nothing when the datagram is lost (that is what `LossRun` says), an error completion code when
+the BMC refuses the request (`Refused`, Lemmas/SessionFault.lean).  The BMC itself is the instance
+`π = id`, `lostAt = false`; the BMC behind a lossy network (`Spec.BmcSession.lossy`) and the BMC
+with a fault plan (`Spec.BmcSession.faulty`) are others. -/
 
 section relay
 variable {σ : Type} (md5 : List Nat → List Nat) (b : BmcCfg) (P : σ → List Nat → σ × Option (List Nat))
@@ -431,13 +434,13 @@ variable {σ : Type} (md5 : List Nat → List Nat) (b : BmcCfg) (P : σ → List
 
 structure Relay : Prop where
   answers : ∀ s d, lostAt s = false → π (P s d).1 = (step md5 b (π s) d).1 ∧ (P s d).2 = (peer md5 b (π s) d).2
-  drops : ∀ s d, lostAt s = true → π (P s d).1 = (stepLost md5 b (π s) d).1 ∧ (P s d).2 = none
+  drops : ∀ s d, lostAt s = true → π (P s d).1 = (stepLost md5 b (π s) d).1
 
-/-- from state `s` on exactly `k` datagrams are lost, the next one is answered, and then `Q`
-holds of the peer's state — whatever the datagrams are -/
+/-- from state `s` on exactly `k` datagrams are lost (the BMC does not act, nothing comes back),
+the next one is answered, and then `Q` holds of the peer's state — whatever the datagrams are -/
 def LossRun (Q : σ → Prop) : Nat → σ → Prop
   | 0, s => lostAt s = false ∧ ∀ d, Q (P s d).1
-  | k + 1, s => lostAt s = true ∧ ∀ d, LossRun Q k (P s d).1
+  | k + 1, s => lostAt s = true ∧ (∀ d, (P s d).2 = none) ∧ ∀ d, LossRun Q k (P s d).1
 
 /-- in each of the next `n` requests at most `R` datagrams are lost before one is answered -/
 def Within (R : Nat) : Nat → σ → Prop
@@ -451,7 +454,7 @@ theorem LossRun.imp {Q Q' : σ → Prop} (h : ∀ s, Q s → Q' s) : ∀ {k : Na
   intro k
   induction k with
   | zero => intro s hs; exact ⟨hs.1, fun d => h _ (hs.2 d)⟩
-  | succ k ih => intro s hs; exact ⟨hs.1, fun d => ih (hs.2 d)⟩
+  | succ k ih => intro s hs; exact ⟨hs.1, hs.2.1, fun d => ih (hs.2.2 d)⟩
 
 theorem relay_reply (rel : Relay md5 b P π lostAt) (s : σ) (hl : lostAt s = false) (d r : List Nat)
     (st' : BmcState) (h : step md5 b (π s) d = (st', .reply r)) : π (P s d).1 = st' ∧ (P s d).2 = some r := by
@@ -460,7 +463,7 @@ theorem relay_reply (rel : Relay md5 b P π lostAt) (s : σ) (hl : lostAt s = fa
   exact h1
 
 theorem relay_lost (rel : Relay md5 b P π lostAt) (s : σ) (hl : lostAt s = true) (d r : List Nat)
-    (st' : BmcState) (h : stepLost md5 b (π s) d = (st', .reply r)) : π (P s d).1 = st' ∧ (P s d).2 = none := by
+    (st' : BmcState) (h : stepLost md5 b (π s) d = (st', .reply r)) : π (P s d).1 = st' := by
   have h1 := rel.drops s d hl
   simp only [h] at h1
   exact h1
@@ -522,7 +525,7 @@ theorem lossRun_lossy (plan : Nat → Bool) (Q : Nat × BmcState → Prop) (k : 
   | succ k ih =>
     intro i st hlt h0 hq
     have hi : plan i = true := by simpa using hlt 0 (by omega)
-    refine ⟨hi, fun d => ?_⟩
+    refine ⟨hi, fun d => by simp [lossy, hi], fun d => ?_⟩
     have e : (lossy md5 b plan (i, st) d).1 = (i + 1, (stepLost md5 b st d).1) := by simp [lossy, hi]
     rw [e]
     refine ih (i + 1) _ (fun j hj => ?_) ?_ (fun st' => ?_)
